@@ -943,6 +943,15 @@ def judge_histories(ctx, n_hist):
             judge_history(ctx, func, gen_history(rng, func, rng.choice([4, 8, 12]), dtype), dtype)
 
 
+def _close_out(func, q, a, b, tol):
+    """outputs that are angles on the circle (bear; the RA returned by translate) are compared modulo 360"""
+    a, b = np.asarray(a, dtype=float), np.asarray(b, dtype=float)
+    if func == 'bear' or (func == 'translate' and q == 0):
+        d = np.abs((a - b + 180.0) % 360.0 - 180.0)
+        return bool(np.all(d <= tol))
+    return bool(np.allclose(a, b, rtol=0, atol=tol))
+
+
 def judge_types(ctx, n):
     """integer-typed arrays / Python ints, 0-d arrays, numpy scalar types, mixed scalar-array broadcasting: the answer
     must be the float64 answer for the same values; dec2dms/dec2hms on numpy scalar types"""
@@ -964,7 +973,7 @@ def judge_types(ctx, n):
                 ctx.case(case)
                 continue
             tol = 2e-3 if any('float32' in k for k in kinds) else 1e-10
-            if not all(x.shape == y.shape and np.allclose(x, y, rtol=0, atol=tol) for x, y in zip(got, ref)):
+            if not all(x.shape == y.shape and _close_out(func, q, x, y, tol) for q, (x, y) in enumerate(zip(got, ref))):
                 ctx.fail('spec', case, f"{func}{tuple(vals)} = {[x.tolist() for x in ref]} with floats but {[x.tolist() for x in got]} with types {kinds}",
                          dict(site=func, what='types-value'))
             # mixed scalar-array broadcasting against element-wise scalar calls
@@ -980,7 +989,7 @@ def judge_types(ctx, n):
                 res = _as_tuple(f(*args))
                 want = [_as_tuple(f(*[(c[j] if a else c[0]) for c, a in zip(cols, isarr)])) for j in range(m)]
                 # an output that does not depend on any array argument may legitimately stay a scalar: compare broadcast
-                ok = all(res[q].shape in ((m,), ()) and np.allclose(np.broadcast_to(res[q], (m,)), [w[q] for w in want], rtol=0, atol=1e-10)
+                ok = all(res[q].shape in ((m,), ()) and _close_out(func, q, np.broadcast_to(res[q], (m,)), [w[q] for w in want], 1e-10)
                          for q in range(len(res)))
                 if not ok:
                     ctx.fail('spec', bcase, f"{func} with mixed scalar/array arguments {isarr} differs from element-wise scalar calls",
